@@ -176,18 +176,21 @@ func c08module(m dsl.Matcher) {
 }
 `
 
-var probeRuleSet = ruleSet{"module-type", []string{"module.go"}, map[string]string{"module.go": rulesModuleType}}
+var probeRuleSet = ruleSet{name: "module-type", files: []string{"module.go"}, text: map[string]string{"module.go": rulesModuleType}}
 
 type ruleSet struct {
 	name  string
 	files []string // rule file names, load order
 	text  map[string]string
+	// allZoo: every round runs all zoo files (loadtime.go); otherwise one zoo file per round, in rotation (the zoo
+	// files are large, and the rule sets with custom GetType filters pay a cold source import per engine)
+	allZoo bool
 }
 
 var ruleSets = []ruleSet{
-	{"types", []string{"types.go"}, map[string]string{"types.go": rulesTypes}},
-	{"mixed", []string{"mixed.go"}, map[string]string{"mixed.go": rulesMixed}},
-	{"two-files", []string{"a.go", "b.go"}, map[string]string{"a.go": rulesSecondA, "b.go": rulesSecondB}},
+	{name: "types", files: []string{"types.go"}, text: map[string]string{"types.go": rulesTypes}},
+	{name: "mixed", files: []string{"mixed.go"}, text: map[string]string{"mixed.go": rulesMixed}},
+	{name: "two-files", files: []string{"a.go", "b.go"}, text: map[string]string{"a.go": rulesSecondA, "b.go": rulesSecondB}},
 }
 
 // ------------------------------------------------------------------------------------------------ target files
@@ -352,13 +355,24 @@ func checkPM(dir string, scale int, fset *token.FileSet, imp types.Importer) err
 	return nil
 }
 
+// zooTargets: the files of loadtime.go (explore mode only; the FindType scripts keep to the four base packages)
+var zooTargets []*target
+
 func checkTargets(dir string, scale int) ([]*target, error) {
 	fset := token.NewFileSet()
 	imp := importer.ForCompiler(fset, "source", nil)
 	if err := checkPM(dir, scale, fset, imp); err != nil {
 		return nil, err
 	}
-	srcs := targetSources(scale)
+	base, err := checkSources(dir, targetSources(scale), fset, imp)
+	if err != nil {
+		return nil, err
+	}
+	zooTargets, err = checkSources(dir, zooSources(scale), fset, imp)
+	return base, err
+}
+
+func checkSources(dir string, srcs map[string]string, fset *token.FileSet, imp types.Importer) ([]*target, error) {
 	var names []string
 	for n := range srcs {
 		names = append(names, n)
@@ -571,6 +585,29 @@ func explore(enc0 *json.Encoder, targets []*target, sets []int, ns []int, seed i
 			for _, t := range pmFiles {
 				base[t.name] = runOnce(eA, t.t, nil, nil)
 			}
+			{
+				// which rules of the set deliver reports at all (group:line), and how many files carry reports
+				fired := map[string]int{}
+				sample := map[string]string{}
+				for _, r := range base {
+					for _, rep := range r.Reports {
+						k := fmt.Sprintf("%s:%d", rep.Group, rep.Line)
+						fired[k]++
+						if os.Getenv("C08_SAMPLES") != "" {
+							sample[k] = rep.Message
+						}
+					}
+				}
+				if len(sample) > 0 {
+					enc.Encode(map[string]interface{}{"k": "rules-sample", "ruleset": rs.name, "sample": sample})
+				}
+				var keys []string
+				for k := range fired {
+					keys = append(keys, k)
+				}
+				sort.Strings(keys)
+				enc.Encode(map[string]interface{}{"k": "rules-fired", "ruleset": rs.name, "rules": keys})
+			}
 			// the same calls again: reverse order, one reused state (warm engine), and optionally on fresh engines
 			check := func(kind string, e *ruleguard.Engine, st *ruleguard.RunnerState, t *target) {
 				r := runOnce(e, t.t, st, nil)
@@ -607,9 +644,19 @@ func explore(enc0 *json.Encoder, targets []*target, sets []int, ns []int, seed i
 					if err != nil {
 						return
 					}
+					roundTargets := targets
+					if !rs.allZoo && len(zooTargets) > 0 {
+						roundTargets = nil
+						pick := zooTargets[(round*len(ns)+n+si)%len(zooTargets)]
+						for _, t := range targets {
+							if !strings.HasPrefix(t.name, "pz") || t == pick {
+								roundTargets = append(roundTargets, t)
+							}
+						}
+					}
 					for _, phase := range []string{"cold", "warm"} {
 						rseed := seed*1000003 + int64(round)*7919 + int64(si)*131 + int64(n)
-						exploreRound(enc, e, rs, targets, base, n, phase, rseed, perG)
+						exploreRound(enc, e, rs, roundTargets, base, n, phase, rseed, perG)
 					}
 				}
 				if time.Now().After(deadline) {
@@ -987,7 +1034,7 @@ func main() {
 	seed := flag.Int64("seed", 1, "seed")
 	budget := flag.Float64("budget", 15, "exploration budget in seconds (at least one round per N is always run)")
 	nsFlag := flag.String("ns", "2,4,16", "goroutine counts")
-	setsFlag := flag.String("rulesets", "0,1,2", "rule set indices")
+	setsFlag := flag.String("rulesets", "", "rule set indices (empty: all)")
 	tmp := flag.String("tmp", "", "scratch directory for the target files")
 	scale := flag.Int("scale", 6, "functions per target file")
 	perG := flag.Int("perg", 0, "files per goroutine (0 = all)")
@@ -1029,7 +1076,14 @@ func main() {
 	}
 	switch *mode {
 	case "explore":
-		explore(enc, targets, parseInts(*setsFlag), parseInts(*nsFlag), *seed, time.Duration(*budget*float64(time.Second)), *perG, *fresh)
+		sets := parseInts(*setsFlag)
+		if len(sets) == 0 {
+			for i := range ruleSets {
+				sets = append(sets, i)
+			}
+		}
+		all := append(append([]*target(nil), targets...), zooTargets...)
+		explore(enc, all, sets, parseInts(*nsFlag), *seed, time.Duration(*budget*float64(time.Second)), *perG, *fresh)
 	case "findtype":
 		findtypeMode(enc, targets, *seed, *nscripts, *nburst)
 	}
